@@ -43,7 +43,7 @@ FATAL_PATTERNS = [
 def gen_packages(run):
     rng = run.rng
     if run.thorough():
-        npk, nif, nme = 6, 3, 6
+        npk, nif, nme = 5, 3, 6
     else:
         npk, nif, nme = 4, 3, 5
     pkgs = []
@@ -64,6 +64,9 @@ def gen_packages(run):
         rest = [r for r in rej if r[0] not in keep]
         rng.shuffle(rest)
         rej = [r for r in rej if r[0] in keep] + rest[:4]
+    # plus random result lists over the whole field grammar (accepted or refused: Coq decides)
+    for k in range(60 if run.thorough() else 6):
+        rej.append(("random%d" % k, g.random_results(rng)))
     rpkgs = [(label, g.rejected_pkg("r%02d" % i, results)) for i, (label, results) in enumerate(rej)]
     return pkgs, rpkgs
 
@@ -186,10 +189,6 @@ def gen_cases(run, pkgs):
             for j, (label, b) in enumerate(main4):
                 mode = "srv" if (s + j + k) % 3 else "fab"
                 add(p, i, m, mode=mode, status=s, body=b, label=label)
-        if run.thorough():
-            for s in statuses:                         # and the other transport for a sample
-                for j, (label, b) in enumerate(main4):
-                    add(p, i, m, mode=("fab" if (s + j + k) % 3 else "srv"), status=s, body=b, label=label)
         # body variants on the boundaries
         for label, b in bodies[4:]:
             for s in (inrange if full else rng.sample(inrange, 3)):
@@ -302,8 +301,8 @@ def coq_case(c, o, mname):
             err = "EUnknown %s" % g.coq_str(e["type"] + ": " + e["text"])
     obs = ("{| ob_nout := %d; ob_res := %s; ob_resp := %s; ob_err := %s; ob_read := %s; ob_closed := %d |}"
            % (o["nout"], res, resp, err, "true" if o["reads"] > 0 else "false", o["closed"]))
-    return ("{| c_results := %s; c_out := %s; c_zero := %s; c_dec := %s; c_obs := %s |}"
-            % (mname, out, zero, dec, obs))
+    return ("{| c_body_verb := %s; c_results := %s; c_out := %s; c_zero := %s; c_dec := %s; c_obs := %s |}"
+            % ("true" if m.body_param else "false", mname, out, zero, dec, obs))
 
 
 def coq_shards(run, tag, cases, obs, shard=400, extra=""):
